@@ -9,7 +9,7 @@ from harness.spectral import rot2, rot3, lower
 from harness.linops import make_classes
 
 PROPERTY = "C06"
-DEFAULT_OPTS = {"validate": 2, "timeout_ms": 20000, "budget_s": 400, "max_paths": 40}
+DEFAULT_OPTS = {"validate": 2, "timeout_ms": 20000, "budget_s": 200, "max_paths": 40}
 
 META = {
     "bounds": "planted-parametrisation differential: with autograd leaves p = (rotation parameter t, eigenvalues e, lower factor L of M) "
@@ -113,6 +113,37 @@ def eig_grad(cx, n=2, neig=2, mode="lowest", method="exacteig", withM=False, sec
     return "ok"
 
 
+def batch_mixed(cx, method="custom_exacteig"):
+    """a batch with one exactly degenerate element and one with distinct eigenvalues (3x3, neig=3), basis-independent loss;
+    run on the real code only (the regularised singular solve of the degenerate element is outside the symbolic engine)"""
+    q = cx.sym("q", (2, 4), requires_grad=True, lo=0.5, hi=2, positive=True)
+    e = cx.sym("e", (2, 2), requires_grad=True, lo=0.5, hi=2, positive=True)
+    es = []
+    es.append(torch.stack([e[0, 0], e[0, 0], e[0, 0] + 0.5 + e[0, 1]]))          # degenerate pair
+    es.append(torch.stack([e[1, 0], e[1, 0] + 0.75, e[1, 0] + 1.5 + e[1, 1]]))   # distinct
+    As, Xs = [], []
+    for b in range(2):
+        V = rot3(q[b])
+        As.append(torch.matmul(V * es[b].unsqueeze(-2), V.transpose(-2, -1)))
+        Xs.append(V)
+    A = torch.stack(As)
+    ev, vec = symeig(LinearOperator.m(A, is_hermitian=True), neig=3, method=method)
+    S0 = cx.sym("S", (3, 3))
+    Ssym = S0 + S0.transpose(-2, -1)
+    w = cx.sym("w", (3,))
+    # projector on the two lowest eigenvectors (the degenerate subspace of element 0) and the third one
+    P1 = torch.matmul(vec[..., :2], vec[..., :2].transpose(-2, -1))
+    loss1 = (w * ev).sum() + (Ssym * P1).sum()
+    P2 = torch.stack([torch.matmul(X[:, :2], X[:, :2].transpose(-2, -1)) for X in Xs])
+    loss2 = (w * torch.stack(es)).sum() + (Ssym * P2).sum()
+    cx.claim_eq("loss value", loss1, loss2)
+    g1 = grads(loss1, [q, e])
+    g2 = grads(loss2, [q, e])
+    cx.claim_eq("d/dq", g1[0], g2[0], tol=1e-5)
+    cx.claim_eq("d/de", g1[1], g2[1], tol=1e-5)
+    return "ok"
+
+
 def svd_grad(cx, mode="uppest", k=None, method="exacteig"):
     """2x2: A = U(tu) diag(sig) V(tv)^T; loss of singular values and of the rank-one terms s_i u_i v_i^T"""
     tu = cx.const(torch.tensor(0.5, dtype=torch.float64)).requires_grad_()
@@ -154,14 +185,16 @@ def configs(tier):
         add("eig/%s/A/n2/neig2/lowest" % method, eig_grad, n=2, neig=2, method=method)
         add("eig/%s/A/n2/neig1/lowest" % method, eig_grad, n=2, neig=1, method=method)
         add("eig/%s/A/n2/neig1/uppest" % method, eig_grad, n=2, neig=1, mode="uppest", method=method)
-        cm = method == "custom_exacteig"
-        tag = "/Mfixed" if cm else ""
+        cm = True
+        tag = "/Mfixed"
         add("eig/%s/AM/n2/neig2/lowest%s" % (method, tag), eig_grad, n=2, neig=2, method=method, withM=True, concreteM=cm)
-        if not cm:
+        if method == "exacteig":
             add("eig/%s/AM/n2/neig1/lowest%s" % (method, tag), eig_grad, n=2, neig=1, method=method, withM=True, concreteM=cm)
             add("eig/%s/AM/n2/neig1/uppest%s" % (method, tag), eig_grad, n=2, neig=1, mode="uppest", method=method, withM=True,
                 concreteM=cm)
     add("eig/custom_exacteig/A/n2/neig1/lowest/mvonly", eig_grad, n=2, neig=1, method="custom_exacteig", opkind="mvonly")
+    add("aux_real_only/batch_mixed_degenerate/custom_exacteig", batch_mixed, method="custom_exacteig", opts={"real_only": True, "validate": 3})
+    add("aux_real_only/batch_mixed_degenerate/exacteig", batch_mixed, method="exacteig", opts={"real_only": True, "validate": 3})
     add("svd/exacteig/full", svd_grad, mode="uppest", k=None)
     add("svd/custom_exacteig/k1/lowest", svd_grad, mode="lowest", k=1, method="custom_exacteig")
     if tier == "thorough":
